@@ -249,3 +249,21 @@ pub fn mem_edit(mb: &mut in_toto::models::Metablock, kind: &str) -> bool {
         _ => false,
     }
 }
+
+
+/// A writer that accepts at most `step` bytes per `write` call.
+pub struct ShortWriter {
+    pub buf: Vec<u8>,
+    pub step: usize,
+}
+
+impl std::io::Write for ShortWriter {
+    fn write(&mut self, data: &[u8]) -> std::io::Result<usize> {
+        let n = data.len().min(self.step);
+        self.buf.extend_from_slice(&data[..n]);
+        Ok(n)
+    }
+    fn flush(&mut self) -> std::io::Result<()> {
+        Ok(())
+    }
+}
